@@ -3,6 +3,10 @@
 package server
 
 import (
+	"strings"
+	"sync/atomic"
+
+	"github.com/liftbridge-io/liftbridge/server/logger"
 	"fmt"
 	"os"
 	"path/filepath"
@@ -14,7 +18,23 @@ import (
 // L4: a started multi-server cluster in one process: its own NATS server on a
 // random port, gRPC on port 0, real hashicorp/raft between the servers.
 
+// vfWatchLogger passes everything through and counts the error messages that
+// tell that a follower fell back to truncating its log to its own HW (the open
+// finding C02-hw-truncation-fallback).
+type vfWatchLogger struct {
+	logger.Logger
+	hwFallbacks *int64
+}
+
+func (l *vfWatchLogger) Errorf(format string, v ...interface{}) {
+	if strings.HasPrefix(format, "Failed to fetch last offset for leader epoch") {
+		atomic.AddInt64(l.hwFallbacks, 1)
+	}
+	l.Logger.Errorf(format, v...)
+}
+
 type vfCluster struct {
+	hwFallbacks int64 // followers that truncated to their HW because the leader could not be reached
 	ns     *gnatsd.Server
 	root   string
 	nsName string
@@ -74,6 +94,7 @@ func (c *vfCluster) start(id string, seed bool) error {
 		c.mut(cfg)
 	}
 	s := New(cfg)
+	s.logger = &vfWatchLogger{Logger: s.logger, hwFallbacks: &c.hwFallbacks}
 	if err := s.Start(); err != nil {
 		return err
 	}
